@@ -55,9 +55,35 @@ def apply_step(obj, st, via):
                                                    add_knot_list=[float(fr(x)) for x in st["add"]], density=st["dens"])
         obj.set_ctrlpts(new_cpts)
         obj.knotvector = new_kv
+    elif a == "set_ctrlpts":
+        obj.ctrlpts = [[float(x) for x in frv(p)] for p in st["P"]]
+    elif a in ("set_weights", "scale_weights"):
+        obj.weights = [float(fr(w)) for w in st["W"]]
+    elif a == "set_ctrlptsw":
+        obj.ctrlptsw = [[float(x) for x in frv(p)] for p in st["Pw"]]
+    elif a == "read":
+        info["value"] = read_view(obj, st["v"])
     else:
         raise ValueError("unknown action " + a)
     return info
+
+
+def read_view(obj, v):
+    """call a public getter; returns a plain copy of what it returned"""
+    import copy
+    if v == "ctrlpts":
+        return copy.deepcopy(list(obj.ctrlpts))
+    if v == "weights":
+        return copy.deepcopy(list(obj.weights))
+    if v == "ctrlptsw":
+        return copy.deepcopy(list(obj.ctrlptsw))
+    if v == "evalpts":
+        return copy.deepcopy(list(obj.evalpts))
+    if v == "bbox":
+        return copy.deepcopy([list(x) for x in obj.bbox])
+    if v == "ctrlpts2d":
+        return copy.deepcopy([list(r) for r in obj.ctrlpts2d])
+    raise ValueError("unknown view " + v)
 
 
 def replay_history(sh0, hist, via):
